@@ -8,7 +8,7 @@ from ..core import AnalysisError
 from ..minieval import Mini, NDA, Raised
 
 LEVEL = "exploration"
-TECHNIQUE = "exhaustive exact-arithmetic table lint (all orders x all monomials) + symbolic change-of-variables proof of the Duffy regions"
+TECHNIQUE = "exhaustive exact-arithmetic table lint (all orders x all monomials) + symbolic change-of-variables proof of the Duffy regions; symbolic interpretation of the rule builder with definite-defect reporting (uninitialised reads, untaken branches, non-tensor weights)"
 LEVEL_TEXT = (
     "The space is finite and is enumerated completely: every tabulated triangle rule (orders 1..20) against every "
     "monomial up to its order, every Gauss rule (1..30 points) against every degree up to 2n-1, with the literals "
